@@ -72,13 +72,13 @@ impl Ids {
 
 /// Remote operations are created once per behaviour (their timestamps differ per creation) and
 /// handed to every incarnation as hex: `{ "r1": [ {"h": <header hex>, "b": <body hex>|null}, .. ] }`.
-pub fn build_remote_ops(ids: &Ids, bodies: &BTreeMap<&str, Vec<bool>>) -> Value {
+pub fn build_remote_ops(ids: &Ids, bodies: &BTreeMap<&str, Vec<(bool, bool)>>) -> Value {
     let mut out = serde_json::Map::new();
     for (author, flags) in bodies {
         let key = &ids.keys[author];
         let mut backlink: Option<Hash> = None;
         let mut list = Vec::new();
-        for (seq, has_body) in flags.iter().enumerate() {
+        for (seq, (has_body, prune)) in flags.iter().enumerate() {
             let body: Option<Body> = if *has_body {
                 let bytes = encode_cbor(&format!("{author}-{seq}")).expect("cbor");
                 Some(Body::new(&bytes))
@@ -93,7 +93,7 @@ pub fn build_remote_ops(ids: &Ids, bodies: &BTreeMap<&str, Vec<bool>>) -> Value 
                 payload_hash: body.as_ref().map(|b| b.hash()),
                 seq_num: seq as SeqNum,
                 backlink,
-                extensions: Extensions::from_topic(ids.topic("t")),
+                extensions: Extensions::from_topic(ids.topic("t")).set_prune_flag(*prune),
             };
             header.sign(key);
             backlink = Some(header.hash());
@@ -128,8 +128,8 @@ fn decode_remote(v: &Value) -> Operation {
     }
 }
 
-pub fn op_json(a: &str, tp: &str, seq: i64, body: bool) -> Value {
-    json!({"a": a, "tp": tp, "seq": seq, "body": body})
+pub fn op_json(a: &str, tp: &str, seq: i64, body: bool, prune: bool) -> Value {
+    json!({"a": a, "tp": tp, "seq": seq, "body": body, "prune": prune})
 }
 
 enum Advance<T> {
@@ -351,10 +351,17 @@ impl Inc {
             "ForgeBegin" => {
                 let tx = self.tx.clone();
                 let seq = arg["op"]["seq"].as_i64().unwrap_or(0);
+                let prune = arg["op"]["prune"].as_bool().unwrap_or(false);
+                let body = arg["op"]["body"].as_bool().unwrap_or(true);
                 let msg = format!("me-{seq}");
                 let mut h = self
                     .spawn_registered("pub", async move {
-                        match tx.publish(msg).await {
+                        let r = if prune {
+                            tx.prune(if body { Some(msg) } else { None }).await
+                        } else {
+                            tx.publish(msg).await
+                        };
+                        match r {
                             Ok(f) => Ok(f.hash().to_string()),
                             Err(e) => Err(e.to_string()),
                         }
@@ -649,7 +656,12 @@ impl Inc {
             match rng.below(10) {
                 0..=3 => {
                     let msg = format!("me-{my_next}");
-                    match self.tx.publish(msg).await {
+                    let r = if rng.chance(1, 8) {
+                        self.tx.prune(Some(msg)).await
+                    } else {
+                        self.tx.publish(msg).await
+                    };
+                    match r {
                         Ok(_) => emit(json!({"p": "pub", "seq": my_next})),
                         Err(e) => return Err(format!("publish: {e}")),
                     }
@@ -720,7 +732,8 @@ pub fn event_json(ids: &Ids, ev: &StreamEvent<String>) -> Option<Value> {
             let header = operation.processed().header();
             let a = ids.author_name(&header.verifying_key).unwrap_or("?");
             let tp = ids.topic_name_of_log(&header.extensions.log_id());
-            json!({"k": "op", "op": op_json(a, tp, header.seq_num as i64, true), "msg": operation.message()})
+            let prune = header.extensions.prune_flag().is_set();
+            json!({"k": "op", "op": op_json(a, tp, header.seq_num as i64, true, prune), "msg": operation.message()})
         }
         StreamEvent::ReplayStarted { total_operations } => json!({"k": "rs", "total": total_operations}),
         StreamEvent::ReplayEnded => json!({"k": "re"}),
@@ -785,7 +798,8 @@ pub async fn observe_store(store: &SqliteStore, ids: &Ids, gate: &Gate) -> Resul
                 .await
                 .map_err(|e| format!("get_log_entries: {e}"))?;
             for (op, _) in entries.unwrap_or_default() {
-                stored.push(op_json(a, tp, op.header.seq_num as i64, op.body.is_some()));
+                let prune = op.header.extensions.prune_flag().is_set();
+                stored.push(op_json(a, tp, op.header.seq_num as i64, op.body.is_some(), prune));
             }
         }
     }
